@@ -38,6 +38,13 @@ type C03Case struct {
 	Target   TunSide `json:"target"`
 	UpEarly  int     `json:"upstream_early"` // part of Target.Early that the upstream proxy sends in the same write as its reply
 	Close    string  `json:"close"`          // client-first | target-first | simultaneous | client-close
+	// TLS12: the TLS legs (client to a TLS listener, proxy to the https upstream) negotiate TLS 1.2 and their
+	// writers coalesce records written within a millisecond, so the last data record and close_notify arrive
+	// together and the reading side gets its final bytes in the same Read that reports end-of-stream.
+	TLS12 bool `json:"tls12,omitempty"`
+	// Stream (connectfunc route): "tcp" hands the proxy the TCP connection itself, "eofdata" a stream whose
+	// Read returns the final bytes together with io.EOF whenever end-of-stream is already known.
+	Stream string `json:"stream,omitempty"`
 }
 
 var tunSizes = []int{1, 2, 100, 1000, 4095, 4096, 4097, 16384, 32767, 32768, 32769, 65536, 100000}
@@ -75,6 +82,12 @@ func genC03(t *rapid.T) C03Case {
 	c.Close = rapid.SampledFrom([]string{"client-first", "target-first", "simultaneous", "client-close"}).Draw(t, "close")
 	if c.Close == "client-close" {
 		c.Target.After = nil // the client closes the socket completely once it has everything
+	}
+	if c.Route == "connectfunc" {
+		c.Stream = rapid.SampledFrom([]string{"tcp", "eofdata"}).Draw(t, "stream")
+	}
+	if c.TLSList || c.Route == "https" {
+		c.TLS12 = rapid.Bool().Draw(t, "tls12")
 	}
 	if c.Target.Early > 0 && (c.Route == "http" || c.Route == "https" || c.Route == "socks5") && rapid.Bool().Draw(t, "upearly") {
 		c.UpEarly = rapid.IntRange(1, c.Target.Early).Draw(t, "upearlyn")
@@ -118,6 +131,7 @@ type tunEnv struct {
 	ca      *CA
 	up      *Peer // HTTP proxy
 	upTLS   *Peer // HTTPS proxy
+	upTLS12 *Peer // HTTPS proxy limited to TLS 1.2, coalescing writer
 	socks   *Peer
 	proxies map[string]*ProxyInst
 	runs    sync.Map // target port -> *tunRun
@@ -165,6 +179,12 @@ func getTun() (*tunEnv, error) {
 		}
 		e.up = must(StartPeer("up", "127.0.0.4", nil, HTTPHandler(originResponder, upstreamHandler)))
 		e.upTLS = must(StartPeer("upTLS", "127.0.0.6", e.ca.ServerTLS("127.0.0.6"), HTTPHandler(originResponder, upstreamHandler)))
+		cfg12 := e.ca.ServerTLS("127.0.0.6")
+		cfg12.MaxVersion = tls.VersionTLS12
+		e.upTLS12 = must(StartPeer("upTLS12", "127.0.0.6", cfg12, HTTPHandler(originResponder, upstreamHandler)))
+		if e.upTLS12 != nil {
+			e.upTLS12.Coalesce.Store(true)
+		}
 		e.socks = must(StartPeer("socks", "127.0.0.7", nil, Socks5HandlerEarly(nil, func(target string) []byte {
 			if run := e.runFor(target); run != nil && run.c.UpEarly > 0 {
 				return Payload(run.id*2+1, run.c.UpEarly)
@@ -195,14 +215,19 @@ func getTun() (*tunEnv, error) {
 			mk("upgrade", ProxyOpts{})
 			mk("http", ProxyOpts{Upstream: "http://" + e.up.Addr})
 			mk("https", ProxyOpts{Upstream: "https://" + e.upTLS.Addr})
+			mk("https12", ProxyOpts{Upstream: "https://" + e.upTLS12.Addr})
 			mk("socks5", ProxyOpts{Upstream: "socks5://" + e.socks.Addr})
 			mk("connectfunc", ProxyOpts{ConnectFunc: func(req *http.Request) (*http.Response, io.ReadWriteCloser, error) {
 				conn, err := net.DialTimeout("tcp", req.URL.Host, 5*time.Second)
 				if err != nil {
 					return nil, nil, err
 				}
+				var stream io.ReadWriteCloser = conn
+				if run := e.runFor(req.URL.Host); run != nil && run.c.Stream == "eofdata" {
+					stream = newEOFDataStream(conn.(*net.TCPConn))
+				}
 				return &http.Response{Status: "200 OK", StatusCode: 200, Proto: req.Proto, ProtoMajor: req.ProtoMajor, ProtoMinor: req.ProtoMinor,
-					Header: http.Header{}, Body: http.NoBody, ContentLength: -1, Request: req}, conn, nil
+					Header: http.Header{}, Body: http.NoBody, ContentLength: -1, Request: req}, stream, nil
 			}})
 		}
 		if tunErr == nil {
@@ -210,6 +235,83 @@ func getTun() (*tunEnv, error) {
 		}
 	})
 	return tun, tunErr
+}
+
+// eofDataStream is a legal io.Reader over a TCP connection that reports end-of-stream together with the last
+// bytes (n > 0, io.EOF) whenever the end is already known when those bytes are handed out - what a TLS 1.2
+// connection does when close_notify sits behind the last record, and what any ConnectFunc stream may do.
+type eofDataStream struct {
+	c    *net.TCPConn
+	ch   chan eofChunk
+	done chan struct{}
+	once sync.Once
+	cur  *eofChunk
+}
+
+type eofChunk struct {
+	data []byte
+	err  error
+}
+
+func newEOFDataStream(c *net.TCPConn) *eofDataStream {
+	s := &eofDataStream{c: c, ch: make(chan eofChunk, 1), done: make(chan struct{})}
+	go func() {
+		for {
+			buf := make([]byte, 32<<10)
+			k, err := c.Read(buf)
+			select {
+			case s.ch <- eofChunk{buf[:k], err}:
+			case <-s.done:
+				return
+			}
+			if err != nil {
+				return
+			}
+		}
+	}()
+	return s
+}
+
+func (s *eofDataStream) Read(p []byte) (int, error) {
+	if len(p) == 0 {
+		return 0, nil
+	}
+	if s.cur == nil {
+		select {
+		case ck := <-s.ch:
+			s.cur = &ck
+		case <-s.done:
+			return 0, net.ErrClosed
+		}
+	}
+	n := copy(p, s.cur.data)
+	s.cur.data = s.cur.data[n:]
+	if len(s.cur.data) > 0 {
+		return n, nil
+	}
+	err := s.cur.err
+	s.cur = nil
+	if err != nil || n == 0 {
+		return n, err
+	}
+	tm := time.NewTimer(3 * time.Millisecond)
+	defer tm.Stop()
+	select {
+	case nx := <-s.ch:
+		if len(nx.data) == 0 && nx.err != nil {
+			return n, nx.err // the final bytes and the end of the stream in one call
+		}
+		s.cur = &nx
+	case <-tm.C:
+	}
+	return n, nil
+}
+
+func (s *eofDataStream) Write(p []byte) (int, error) { return s.c.Write(p) }
+func (s *eofDataStream) CloseWrite() error           { return s.c.CloseWrite() }
+func (s *eofDataStream) Close() error {
+	s.once.Do(func() { close(s.done) })
+	return s.c.Close()
 }
 
 // Socks5HandlerEarly is Socks5Handler with bytes appended to the success reply.
@@ -447,6 +549,9 @@ func runC03once(c C03Case) []vstat.Failure {
 
 	// ---- client
 	name := c.Route
+	if c.Route == "https" && c.TLS12 {
+		name = "https12"
+	}
 	if c.TLSList {
 		name += "+tls"
 	}
@@ -459,7 +564,15 @@ func runC03once(c C03Case) []vstat.Failure {
 	tc.SetDeadline(deadline)
 	var conn net.Conn = tc
 	if c.TLSList {
-		t := tls.Client(tc, &tls.Config{RootCAs: e.ca.Pool, ServerName: "127.0.0.1"})
+		ccfg := &tls.Config{RootCAs: e.ca.Pool, ServerName: "127.0.0.1"}
+		var under net.Conn = tc
+		if c.TLS12 {
+			ccfg.MaxVersion = tls.VersionTLS12
+			cc := &coalesceConn{Conn: tc}
+			defer cc.Close()
+			under = cc
+		}
+		t := tls.Client(under, ccfg)
 		if err := t.Handshake(); err != nil {
 			return []vstat.Failure{vstat.Failf("C03:harness", "TLS to proxy listener: %v", err)}
 		}
@@ -595,6 +708,12 @@ func classifyC03(c C03Case) (bool, string, []string) {
 	nt := false
 	if c.TLSList {
 		cls = append(cls, "tls-listener")
+	}
+	if c.TLS12 {
+		cls = append(cls, "tls1.2-coalesced-close")
+	}
+	if c.Stream != "" {
+		cls = append(cls, "stream-"+c.Stream)
 	}
 	if c.Client.Early > 0 {
 		cls = append(cls, "client-early-data")
